@@ -144,6 +144,7 @@ class Summary:
         self.callargs = {}      # id(call node) -> (call node, [arg AVs], {kw: AV})
         self.dangling = []      # (call node, 'cls.X' text): attribute of a known class that does not exist
         self.assign_avs = {}    # id(Assign node) -> AV of the assigned value
+        self.rebinds = {}       # id(stmt) -> (stmt, name, parameter roots the name held, roots of the new value)
 
     def key(self):
         return (tuple(sorted((p, tuple(sorted(ws))) for p, ws in self.writes.items())),
@@ -559,6 +560,12 @@ class _Walker:
 
     def bind(self, t, av, env, st, value_node):
         if isinstance(t, ast.Name):
+            old = env.get(t.id)
+            if old is not None and st is not None and isinstance(st, ast.Assign):
+                oldp = frozenset(r for r in flat(old) if r[0] == 'p')
+                newr = flat(av)
+                if oldp and not (oldp & newr):
+                    self.s.rebinds[id(st)] = (st, t.id, oldp, frozenset(newr))
             env[t.id] = av
         elif isinstance(t, (ast.Tuple, ast.List)):
             if isinstance(av, tuple) and len(av) == len(t.elts) and not any(isinstance(x, ast.Starred) for x in t.elts):
